@@ -307,7 +307,136 @@ def sub_ceremony(case):
             wh.close(w, d)
 
 
-SUBS = {'siglen': sub_siglen, 'agree': sub_agree, 'ceremony': sub_ceremony}
+def _templates2(wt, m, n, seed):
+    """Cosigner wallets that all know TWO funded addresses (two outpoints): a spend of both has two inputs whose
+    signing states can differ."""
+    key = ('two', wt, m, n, seed, os.getpid())
+    if key not in _TPL:
+        paths = []
+        addrs = None
+        cid0 = None
+        for h in range(n):
+            w, p = _create(wt, m, n, h, list(range(n)), seed)
+            if h == 0:
+                ks = w.get_keys(number_of_keys=2)
+                cid0 = ks[0].cosigner_id
+                addrs = [k.address for k in ks]
+            else:
+                ks = w.get_keys(number_of_keys=2, cosigner_id=cid0) if wt == 'legacy' else w.get_keys(number_of_keys=2)
+                if [k.address for k in ks] != addrs:
+                    raise RuntimeError('cosigner wallets disagree on the funded addresses (see sub-space agree)')
+            for i, a in enumerate(addrs):
+                w.utxo_add(a, 100000, wh.utxo_txid(seed, 80 + i), 0, confirmations=5)
+            wh.close(w, None, remove=False)
+            paths.append(p)
+        _TPL[key] = (paths, addrs)
+    return _TPL[key]
+
+
+def sub_cer2(case):
+    """Two-input ceremonies: events ['all', j] (cosigner wallet j takes the object and signs every input) and
+    ['one', j, i] (cosigner j signs input i only, with the address-level private key of that input, as an offline signer
+    does; the wallet carrying the object signs every input next to it).  Model: the set of distinct signers per input; the spend verifies / is pushed iff EVERY input has >= m."""
+    from bitcoinlib.wallets import Wallet, WalletError
+    from bitcoinlib.transactions import TransactionError
+    cfg, hist = case['cfg'], case['hist']
+    wt, m, n, seed = cfg['wt'], cfg['m'], cfg['n'], cfg['seed']
+    tpl, addrs = _templates2(wt, m, n, seed)
+    masters = _masters(seed, n)
+    ws = []
+    devs = []
+    try:
+        for p in tpl:
+            d = env.fresh_db_path('c10two')
+            shutil.copyfile(p, d)
+            ws.append((Wallet('w', db_uri=d, db_cache_uri=wh.cache_db()), d))
+        with wh.ForcedRandom(None, 'uniform', 'identity'):
+            t = ws[0][0].transaction_create([(wh.external_address(9)[0], 150000)], fee=3000, min_confirms=0)
+        if len(t.inputs) != 2:
+            raise RuntimeError('two-input template produced %d inputs' % len(t.inputs))
+        signed = [set() for _ in t.inputs]
+        carrier = 0
+        order = [i.address for i in t.inputs]
+        label = 'created'
+        for ev in hist:
+            try:
+                if ev[0] == 'all':
+                    j = ev[1]
+                    if j != carrier:
+                        t = ws[j][0].transaction_import(t)
+                        carrier = j
+                    t.sign()
+                    for s_ in signed:
+                        s_.add(j)
+                else:
+                    _, j, i = ev
+                    inp = t.inputs[i]
+                    child = masters[j].subkey_for_path(inp.key_path)
+                    if child.public_byte not in [k.public_byte for k in inp.keys]:
+                        raise RuntimeError('reference child key of cosigner %d is not a key of input %d' % (j, i))
+                    t.sign(keys=child)
+                    signed[i].add(j)
+                    # WalletTransaction.sign(keys=...) uses the EXTRA keys next to the private keys of the wallet
+                    # that carries the object, and those sign every input
+                    for s_ in signed:
+                        s_.add(carrier)
+                label = 'signed'
+            except (WalletError, TransactionError) as e:
+                devs.append({'sig': 'ceremony2|step_refused|%s|%s' % (ev[0], wt), 'detail': {'exc': repr(e)[:300]}})
+                label = 'refused'
+                break
+        expect = all(len(s_) >= m for s_ in signed)
+        nsig = [len(i.signatures) for i in t.inputs]
+        if label != 'refused':
+            want = [min(len(s_), n) for s_ in signed]
+            if [min(x, m) for x in nsig] != [min(x, m) for x in want]:
+                devs.append({'sig': 'ceremony2|signature_count_per_input_differs_from_signers|%s' % wt,
+                             'detail': {'signature_counts': nsig, 'signers_per_input': [sorted(x) for x in signed]}})
+            try:
+                got = bool(t.verify())
+            except Exception as e:
+                got = 'raise:' + type(e).__name__
+            if got != expect:
+                devs.append({'sig': 'threshold2|%s|%s' % ('too_lax' if got is True else 'too_strict', wt),
+                             'detail': {'verify()': got, 'signers_per_input': [sorted(x) for x in signed], 'm': m,
+                                        'signature_counts': nsig}})
+            try:
+                t.send(broadcast=True)
+                pushed = bool(t.pushed)
+            except Exception as e:
+                pushed = 'raise:' + type(e).__name__
+            if pushed is True and not expect:
+                devs.append({'sig': 'broadcast2|pushed_with_an_input_below_m_signers|%s' % wt,
+                             'detail': {'signers_per_input': [sorted(x) for x in signed], 'm': m}})
+            elif pushed is not True and expect and got is True:
+                devs.append({'sig': 'broadcast2|not_pushed_although_threshold_reached|%s' % wt,
+                             'detail': {'pushed': pushed, 'error': getattr(t, 'error', None)}})
+            if expect and got is True:
+                cid = ws[0][0].get_key().cosigner_id
+                r = rtx.parse(t.raw())
+                for i, a in enumerate(order):
+                    _, spk, _ = _ref(wt, m, n, seed, 0, addrs.index(a), cid if wt == 'legacy' else 0)
+                    try:
+                        ok = interp.verify_script(r.vin[i]['script'], spk, r.wit[i] if r.wit else [],
+                                                  interp.TxChecker(r, i, 100000))
+                    except Exception as e:
+                        ok = 'raise:' + repr(e)[:100]
+                    if ok is not True:
+                        devs.append({'sig': 'verified_tx_fails_reference_interpreter|two_inputs|%s' % wt,
+                                     'detail': {'input': i, 'ok': ok}})
+            label = 'verified' if got is True else 'unverified'
+        for d in devs:
+            d['detail']['hist'] = hist
+            d['detail']['cfg'] = cfg
+        state = {'signed': [sorted(x) for x in signed], 'nsig': nsig, 'label': label == 'refused', 'carrier': carrier}
+        en = [['all', j] for j in range(n)] + [['one', j, i] for j in range(n) for i in range(2)]
+        return {'devs': devs, 'ret': {'state': state, 'enabled': en}, 'out': label + ':%s' % nsig}
+    finally:
+        for w, d in ws:
+            wh.close(w, d)
+
+
+SUBS = {'siglen': sub_siglen, 'agree': sub_agree, 'ceremony': sub_ceremony, 'cer2': sub_cer2}
 
 
 def run(ctx):
@@ -375,5 +504,11 @@ def run(ctx):
                          'amount': amts[cls]}, 3 if cls == 'short' or not q else 2))
     ctx.note('short_signature_ceremonies', picked)
     total = ctx.bfs_multi('ceremony', cer, max_states=3000 if q else 30000)
+    # two-input spends: per-input signing states (a cosigner that signs one input only)
+    cer2 = [({'wt': wt, 'm': 2, 'n': 3, 'seed': seed}, 2 if q else 3) for wt in wts]
+    if not q:
+        cer2 += [({'wt': wt, 'm': 2, 'n': 2, 'seed': seed}, 3) for wt in wts] + [({'wt': 'segwit', 'm': 3, 'n': 3, 'seed': seed}, 4)]
+    total2 = ctx.bfs_multi('cer2', cer2, max_states=3000 if q else 30000)
+    ctx.note('two_input_ceremony_states', total2)
     ctx.note('bounds', {'agreement_cases': len(cases), 'm_of_n': mns, 'ceremony_configs': len(cer),
                         'ceremony_states': total, 'forms': forms})
